@@ -87,10 +87,19 @@ def configs(tier, seed):
             for load in ("idle", "busy"):
                 cfgs.append(dict(n=N, k=k, action="signal", others=0, ostate="finished", load=load, clock="system", sig=int(sig), cycles=0,
                                  victim="main" if k % 2 else "thread", wait_empty=0))
+    # one more logger, sorted before all others, whose sink throws from every flush_sink(): the victim's file must be
+    # flushed all the same (by the final flush of stop / exit, and by the signal handler's flush before the process dies)
+    for k in range(1, N + 1):
+        for action, extra2 in [("stop", {}), ("exit", {}), ("return", {}), ("cycles", {"cycles": 2})] + [("signal", {"sig": int(s)}) for s in FATAL + GRACEFUL]:
+            for load in ("idle", "busy"):
+                c = dict(n=N, k=k, action=action, others=0, ostate="finished", load=load, clock="system", sig=0, cycles=0, victim="main" if (k % 2 or action == "return") else "thread", badflush=1)
+                c.update(extra2)
+                cfgs.append(c)
     for c in cfgs:
         c.setdefault("big", 0)
         c.setdefault("prealloc", 0)
         c.setdefault("second_fault_ms", 0)
+        c.setdefault("badflush", 0)
         c.setdefault("grace_us", 0)
         c.setdefault("wait_empty", 1)
         c.setdefault("settle_ms", 0)
@@ -183,7 +192,7 @@ def judge(c, rc, timed_out, d):
 def run_child(exe, c, d):
     os.makedirs(d, exist_ok=True)
     args = [exe, "--dir", d]
-    for k in ("n", "k", "action", "others", "ostate", "load", "clock", "sig", "cycles", "victim", "big", "prealloc", "second_fault_ms", "grace_us", "wait_empty", "settle_ms"):
+    for k in ("n", "k", "action", "others", "ostate", "load", "clock", "sig", "cycles", "victim", "big", "prealloc", "second_fault_ms", "grace_us", "wait_empty", "settle_ms", "badflush"):
         args += ["--" + k, str(c[k])]
 
     def pre():
@@ -228,7 +237,7 @@ def run(tier, seed):
         b = col.builds.setdefault(variant, {"processes": 0, "sanitizer_or_crash_reports": 0})
         b["processes"] += 1
         if reached:
-            tuples.add((c["action"], c["k"], c["sig"], c["clock"], c["load"], c["others"], c["ostate"], c["victim"], c["cycles"], c["n"], c["big"], c["prealloc"], c["second_fault_ms"], c["grace_us"], c["wait_empty"], c["settle_ms"]))
+            tuples.add((c["action"], c["k"], c["sig"], c["clock"], c["load"], c["others"], c["ostate"], c["victim"], c["cycles"], c["n"], c["big"], c["prealloc"], c["second_fault_ms"], c["grace_us"], c["wait_empty"], c["settle_ms"], c["badflush"]))
             statements += (c["k"] if c["action"] != "cycles" else c["n"]) + (150 if c["load"] == "busy" else 0)
         if key:
             w = dict(wit)
